@@ -344,9 +344,7 @@ pub fn render_integer(
 	}
 
 	out.reserve(zp2 as usize);
-	if iv != 0 {
-		out.push_str(zero_prefix);
-	}
+	out.push_str(zero_prefix);
 	for _ in 0..zp2 {
 		out.push('0');
 	}
@@ -390,7 +388,8 @@ pub fn render_octal(
 		blank,
 		sign,
 		8,
-		if alt && iv != 0.0 { "0" } else { "" },
+		// Zero already starts with 0, hexadecimal numbers have 0x prefix even for zero
+		if alt && iv.floor() != 0.0 { "0" } else { "" },
 		true,
 		false,
 	);
